@@ -38,6 +38,34 @@ def rand_val(rng, depth=0, maxdepth=4):
     return rng.choice(UNIVERSE[:UNIVERSE.index(())])
 
 
+def fresh(v):
+    """an equal value that is a different object wherever CPython allows it (strings of two or more characters, ints
+    outside the small-int cache, floats, Decimals, bytes, dates, sequences): cells read from files are never the same
+    object as an argument, so `is` must not stand in for `==`"""
+    t = type(v)
+    if t is str:
+        return ''.join(list(v)) if len(v) > 1 else v
+    if t is int:
+        return int(str(v)) if not (-5 <= v <= 256) else v
+    if t is float:
+        return float(repr(v))
+    if t is Decimal:
+        return Decimal(str(v))
+    if t is bytes:
+        return bytes(bytearray(v)) if len(v) > 1 else v
+    if t is tuple:
+        return tuple(fresh(x) for x in v)
+    if t is list:
+        return [fresh(x) for x in v]
+    if t is dt.datetime:
+        return v.replace()
+    if t is dt.date:
+        return v.replace()
+    if t is dt.time:
+        return v.replace()
+    return v
+
+
 def header(rng, n=None, dup=0.0, names=None):
     names = list(names or FIELD_NAMES)
     if n is None:
@@ -67,10 +95,10 @@ def table(rng, hdr=None, pools=None, maxn=8, ragged=0.2, n=None, default_pool=No
         row = []
         for j in range(w):
             pool = (pools or {}).get(j, default_pool)
-            row.append(rng.choice(pool))
+            row.append(fresh(rng.choice(pool)))
         if rag and rng.random() < 0.4:
             k = rng.choice([0, max(0, w - 1), w + 1, max(0, w - 2)])
-            row = (row + [rng.choice(default_pool)])[:k] if k > w else row[:k]
+            row = (row + [fresh(rng.choice(default_pool))])[:k] if k > w else row[:k]
         rows.append(row)
     return [list(hdr)] + rows
 
